@@ -60,6 +60,10 @@ func (i *JsByte) FromString(strBuf string) error {
 		if err != nil {
 			return err
 		}
+		if t < 0 || t > 255 {
+			// not a byte: converting would silently wrap (300 -> 44)
+			return ErrInvalidByteJs
+		}
 		(*i)[j] = byte(t)
 	}
 	return nil
